@@ -215,10 +215,11 @@ class Extractor:
             elif k == "LOOPHEAD":
                 # //@ LOOPHEAD @<iter-name> <key tokens>: name the ghost iterator of the `for` loop holding the key
                 d["loophead"].append((" ".join(w[2:]), w[1][1:]))
-            elif k == "CLOSURE":
+            elif k in ("CLOSURE", "CLOSURE?"):
                 # //@ CLOSURE <recv>.<method> | .<method>#n | @<key tokens>  /  head text  /  //@ ENDCLOSURE
+                # `CLOSURE?`: the closure may be gone from the code (then nothing is annotated; see the unannotated-closure guard)
                 txt, _ = grab(["ENDCLOSURE"])
-                d["closures"].append((" ".join(w[1:]), txt.strip()))
+                d["closures"].append((" ".join(w[1:]), txt.strip(), k.endswith("?")))
             elif k == "R10MAPORELSE":
                 d["maporelse"] = True
             elif k == "BODYONLY":
@@ -636,7 +637,8 @@ class Extractor:
         # typed parameter list and an `ensures` clause (proof-only text); an expression closure additionally gets braces.
         # The anchor is the call and the parameter name only, so an edit of the closure body keeps the anchor and is
         # checked against the clause.
-        for (target, head) in d["closures"]:
+        skipped_annotations = 0
+        for (target, head, optional) in d["closures"]:
             if target.startswith("@"):
                 # `@key tokens`: the call `<anything>.method(|x| ..)` whose closure holds the key token sequence (whatever the method)
                 want = token_texts(target[1:])
@@ -656,6 +658,10 @@ class Extractor:
                 recv, meth = target.split(".")
                 hits = [k for k in range(a, b - 5) if toks[k].text == recv and toks[k + 1].text == "." and toks[k + 2].text == meth
                         and toks[k + 3].text == "(" and toks[k + 4].text == "|" and toks[k + 5].kind == "id" and toks[k + 6].text == "|"]
+            if not hits and optional:
+                skipped_annotations += 1
+                self.missing_lifts.append("%s: optional closure annotation `%s` not applied in %s %s: no such closure in the code" % (rel, target, kind, name))
+                continue
             if len(hits) != 1:
                 raise LostAnchor("%s: CLOSURE anchor `%s(|x| ..)` found %d times in %s %s" % (rel, target, len(hits), kind, name))
             k = hits[0]
@@ -914,8 +920,8 @@ class Extractor:
                         hq -= 1
                     if toks[hq + 1].text != "if":
                         raise UnitError("R4: the block ending in `continue` in %s is not a plain `if` guard" % name)
-                    # enclosing block of the if statement
-                    depth, q = 0, k - 2
+                    # enclosing block of the if statement (walk back from the guard's own opening brace)
+                    depth, q = 0, src.tbl[k + 2] - 1
                     while q > body_lo:
                         if toks[q].kind == "punct" and toks[q].text in ")]}":
                             q = src.tbl[q]
@@ -1027,6 +1033,17 @@ class Extractor:
             else:
                 cut_lo = toks[body_lo].end - base
                 cut_hi = toks[body_hi].start - base
+
+        # unannotated-closure guard: when an optional closure annotation was not applied, every closure that is still in the item must
+        # be covered by some rewrite (annotation, lift, for_each conversion); a bare closure would make proofs fail for lack of a
+        # contract, not because the code is wrong => undecided, not a violation
+        if skipped_annotations and body_lo is not None:
+            covered = [(p_.off, p_.end) for p_ in pieces if p_.kind != "ins"]
+            for q in range(body_lo, body_hi - 2):
+                if toks[q].text == "|" and toks[q + 1].kind == "id" and toks[q + 2].text == "|" and toks[q - 1].text in ("(", ","):
+                    o = toks[q].start - base
+                    if not any(lo_ <= o < hi_ for (lo_, hi_) in covered):
+                        raise LostAnchor("%s: an optional closure annotation was skipped and %s %s still holds an unannotated closure" % (rel, kind, name))
 
         # apply pieces (check no overlap between subst ranges; inserts inside subst are errors)
         pieces.sort(key=lambda p: (p.off, 0 if p.kind == "ins" else 1, -p.end))
